@@ -20,6 +20,8 @@ import (
 	"time"
 
 	"github.com/coredhcp/coredhcp/handler"
+	"golang.org/x/net/ipv4"
+	"github.com/coredhcp/coredhcp/server"
 	"github.com/coredhcp/coredhcp/plugins/file"
 	"github.com/insomniacslk/dhcp/dhcpv4"
 	"github.com/insomniacslk/dhcp/dhcpv6"
@@ -79,6 +81,10 @@ type Case struct {
 	V6    bool   `json:"v6,omitempty"`
 	Lines []Line `json:"lines"`
 	NoNL  bool   `json:"nonl,omitempty"` // no final newline
+	// Hist (static, DHCPv4): datagrams (hex) that go through the server (HandleMsg4 with the file plugin
+	// as the whole chain) before the mapping is probed a second time: what clients send must
+	// not change what the file says
+	Hist []string `json:"hist,omitempty"`
 	// refresh
 	Rewrites []Rewrite `json:"rewrites,omitempty"`
 	// dual: Lines is the DHCPv4 file, Lines6 the DHCPv6 file
@@ -538,6 +544,28 @@ func Exec(c Case) (res core.Result) {
 		v.Message += "\nfile:\n" + clip(text)
 		res.Viol = v
 		return
+	}
+	if !c.V6 && len(c.Hist) > 0 {
+		cap4 := server.NewCapture4([]handler.Handler4{h4}, nil)
+		for i, hx := range c.Hist {
+			b, _ := hex.DecodeString(hx)
+			returned, pan := core.Call(20*time.Second, func() {
+				cap4.Feed(b, &ipv4.ControlMessage{IfIndex: 1}, &net.UDPAddr{IP: net.IPv4(10, 9, 8, 7), Port: 68})
+			})
+			if pan != nil || !returned {
+				// crashes and wedges are C01's business
+				res.Classes = append(res.Classes, "abandoned:C01")
+				return
+			}
+			_ = i
+		}
+		if v := checkMapping4(h4, model, ""); v != nil {
+			v.Signature = "C10/v4/mapping-changed-by-requests"
+			v.Message = fmt.Sprintf("after %d datagrams went through the server with the file plugin as its chain: %s\nfile:\n%s", len(c.Hist), v.Message, clip(text))
+			res.Viol = v
+			return
+		}
+		res.Classes = append(res.Classes, "probed-again-after-requests")
 	}
 	entries, dup, noncanon := 0, false, false
 	seen := map[string]bool{}
